@@ -285,7 +285,8 @@ def count_statements(prog: Prog) -> int:
 
 
 class Gen:
-    def __init__(self, rng: random.Random, mapping: str, feats: set[str], defines: list[tuple[str, str]] | None = None, size: int = 12) -> None:
+    def __init__(self, rng: random.Random, mapping: str, feats: set[str], defines: list[tuple[str, str]] | None = None, size: int = 12, prefix: str = "") -> None:
+        self.prefix = prefix
         self.rng = rng
         self.mapping = mapping
         self.feats = feats
@@ -605,12 +606,12 @@ class Gen:
             node["macro"] = name
             return [node]
         if kind == "incbin":
-            rel = f"bin{self.uid()}.bin"
+            rel = f"{self.prefix}bin{self.uid()}.bin"
             self.prog.files[rel] = bytes(rng.randrange(256) for _ in range(rng.choice([1, 2, 7, 16, 40, 64])))
             self.prog.roles[rel] = "incbin"
             return [stmt(f".incbin '{rel}'", "incbin")]
         if kind == "table":
-            rel = f"tbl{self.uid()}.tbl"
+            rel = f"{self.prefix}tbl{self.uid()}.tbl"
             chars = rng.sample("ABCDEFGHIJKLMNOPQRSTUVWXYZabcdefgh", rng.randrange(3, 12))
             lines = []
             for i, ch in enumerate(chars):
@@ -671,7 +672,7 @@ class Gen:
                     self._note_assign(n)
                 root += nodes
             if s == include_at:
-                rel = f"inc{self.uid()}.s"
+                rel = f"{self.prefix}inc{self.uid()}.s"
                 self.budget = 4
                 inc_nodes: list[Node] = []
                 for _ in range(rng.randrange(1, 5)):
@@ -758,11 +759,11 @@ class Gen:
             self._assigned_values[name.strip()] = int(val)
 
 
-def gen_program(rng: random.Random, mapping: str, feats: set[str] | None = None, defines: list[tuple[str, str]] | None = None, size: int = 12) -> Prog:
+def gen_program(rng: random.Random, mapping: str, feats: set[str] | None = None, defines: list[tuple[str, str]] | None = None, size: int = 12, prefix: str = "") -> Prog:
     if feats is None:
         feats = {x for x in ALL_FEATURES if rng.random() < 0.55}
         feats.add("data")
-    return Gen(rng, mapping, feats, defines, size).generate()
+    return Gen(rng, mapping, feats, defines, size, prefix).generate()
 
 
 def decode_label_table(prog: Prog, image: Any) -> dict[str, int] | None:
